@@ -5,6 +5,7 @@ import (
 	"go/parser"
 	"go/token"
 	"math/rand"
+	"net"
 	"path/filepath"
 	"regexp"
 	"sort"
@@ -167,6 +168,7 @@ func cmdTLD(args []string) {
 				cp.IsCA, cp.BasicConstraintsValid = true, true
 				cnProbe, sanProbe, sub = true, true, false
 			}
+			cnIsIP = net.ParseIP(cp.Subject.CommonName) != nil // the exemption is for a common name that is an IP address (and for nothing else)
 			r := execOne(tl, &Target{Kind: "cert", ID: "tld", Cert: &cp}, cfg)
 			w.Emit(ev.M{"ev": "TLDLint", "i": i, "name": name, "dot": dot, "t": ev.Inst(at), "cnProbe": cnProbe, "sanProbe": sanProbe, "cnIsIP": cnIsIP,
 				"subscriber": sub, "eff": ev.Inst(tl.Meta.EffectiveDate), "ineff": ev.Inst(tl.Meta.IneffectiveDate), "status": r.Obs})
@@ -226,6 +228,11 @@ func cmdTLD(args []string) {
 	for _, lab := range []string{"notatld", "local", "internal", "corp", "c0m", "example", "co-m", "xn--zzzzzz", "", "123"} {
 		probe(0, lab, []time.Time{far[1], time.Date(2020, 1, 1, 0, 0, 0, 0, time.UTC)})
 		lintProbe(0, "host."+lab, false, time.Date(2020, 1, 1, 0, 0, 0, 0, time.UTC))
+	}
+	// names that read as IP addresses: as a dNSName they are names like any other (their right-most label is in no table);
+	// only a common name that is an IP address is exempt
+	for _, lit := range []string{"192.168.1.10", "10.0.0.1", "8.8.8.8", "2001:db8::1", "::1", "1.2.3.4.5", "256.1.1.1"} {
+		lintProbe(0, lit, false, time.Date(2020, 1, 1, 0, 0, 0, 0, time.UTC))
 	}
 	_ = rng
 	n := w.N
